@@ -282,4 +282,690 @@ theorem delete_spec (n : Node) : ∀ (k : List Nib), Pos n k → ∃ d, delete n
     · cases h
     · cases h
 
+
+theorem take_eq_iff {p k : List Nib} : k.take p.length = p ↔ ∃ r, k = p ++ r := by
+  constructor
+  · intro h
+    refine ⟨k.drop p.length, ?_⟩
+    have := (List.take_append_drop p.length k).symm
+    rw [h] at this
+    exact this
+  · rintro ⟨r, rfl⟩; simp
+
+theorem lookup_nil (k : List Nib) : lookup .nil k = none := by simp [lookup]
+
+theorem lookup_value (v : Bytes) (k : List Nib) : lookup (.value v) k = if k = [] then some v else none := by
+  simp [lookup]
+
+theorem lookup_short_append (p : List Nib) (c : Node) (r : List Nib) : lookup (.short p c) (p ++ r) = lookup c r := by
+  simp [lookup]
+
+theorem lookup_short_none {p : List Nib} {c : Node} {k : List Nib} (h : ¬ ∃ r, k = p ++ r) : lookup (.short p c) k = none := by
+  simp only [lookup]
+  rw [if_neg]
+  intro e; exact h (take_eq_iff.1 e)
+
+theorem lookup_short (p : List Nib) (c : Node) (k : List Nib) :
+    lookup (.short p c) k = if k.take p.length = p then lookup c (k.drop p.length) else none := by
+  simp [lookup]
+
+theorem lookup_full_cons (cs : Nib → Node) (x : Nib) (k : List Nib) : lookup (.full cs) (x :: k) = lookup (cs x) k := by
+  simp [lookup]
+
+theorem lookup_full_nil (cs : Nib → Node) : lookup (.full cs) [] = none := by simp [lookup]
+
+theorem lookup_insertNil (p : List Nib) (n : Node) (k : List Nib) :
+    lookup (insertNil p n) k = if k.take p.length = p then lookup n (k.drop p.length) else none := by
+  unfold insertNil
+  split
+  · next h => subst h; simp
+  · simp [lookup]
+
+theorem get_eq_lookup (n : Node) : ∀ k, Pos n k → get n k = some (lookup n k) := by
+  induction n with
+  | nil => intro k _; simp [get, lookup]
+  | value w =>
+    intro k hp
+    rcases hp with ⟨_, h | h⟩ | ⟨rfl, _⟩
+    · cases h
+    · exact absurd h (not_wf_value w)
+    · simp [get, lookup]
+  | short nk c ih =>
+    intro k hp
+    rcases hp with ⟨hk, h | hw⟩ | ⟨_, h | ⟨w, h⟩⟩
+    · cases h
+    · simp only [get, lookup]
+      split
+      · next ht =>
+        obtain ⟨r, rfl⟩ := take_eq_iff.1 ht
+        simp only [List.drop_left]
+        exact ih r (pos_short_child hw hk)
+      · rfl
+    · cases h
+    · cases h
+  | full cs ih =>
+    intro k hp
+    rcases hp with ⟨hk, h | hw⟩ | ⟨_, h | ⟨w, h⟩⟩
+    · cases h
+    · cases k with
+      | nil => exact absurd hk (by simp [Term])
+      | cons x r =>
+        simp only [get, lookup]
+        exact ih x r (pos_full_child hw hk)
+    · cases h
+    · cases h
+
+
+
+theorem leaf_lookup (k : List Nib) (v : Bytes) (k' : List Nib) :
+    lookup (.short k (.value v)) k' = if k' = k then some v else none := by
+  rw [lookup_short]
+  by_cases h : k' = k
+  · subst h; simp [lookup]
+  · rw [if_neg h]
+    split
+    · next ht =>
+      obtain ⟨d, rfl⟩ := take_eq_iff.1 ht
+      have : d ≠ [] := by intro e; subst e; simp at h
+      simp [lookup, this]
+    · rfl
+
+theorem insertNil_value_lookup (k : List Nib) (v : Bytes) (k' : List Nib) :
+    lookup (insertNil k (.value v)) k' = if k' = k then some v else none := by
+  unfold insertNil
+  split
+  · next h => subst h; simp [lookup]
+  · exact leaf_lookup k v k'
+
+theorem lookup_short_append_both (cp q : List Nib) (c : Node) (d : List Nib) :
+    lookup (.short (cp ++ q) c) (cp ++ d) = lookup (.short q c) d := by
+  simp only [lookup_short, List.length_append]
+  have h1 : List.take (cp.length + q.length) (cp ++ d) = cp ++ List.take q.length d := by
+    rw [List.take_append]; simp [List.take_of_length_le]
+  have h2 : List.drop (cp.length + q.length) (cp ++ d) = List.drop q.length d := by
+    rw [List.drop_append]; simp
+  rw [h1, h2]
+  simp
+
+theorem lookup_wrap (cp : List Nib) (br : Node) (k' : List Nib) :
+    lookup (if cp.length = 0 then br else .short cp br) k' =
+      if k'.take cp.length = cp then lookup br (k'.drop cp.length) else none := by
+  split
+  · next h =>
+    have : cp = [] := List.length_eq_zero_iff.1 h
+    subst this; simp
+  · exact lookup_short ..
+
+theorem split_lookup (cp ka' kb' : List Nib) (a b : Nib) (c : Node) (v : Bytes) (hab : a ≠ b) (k' : List Nib) :
+    lookup (if cp.length = 0 then
+              .full (setChild (setChild emptyCs b (insertNil kb' c)) a (insertNil ka' (.value v)))
+            else .short cp (.full (setChild (setChild emptyCs b (insertNil kb' c)) a (insertNil ka' (.value v))))) k' =
+      if k' = cp ++ a :: ka' then some v else lookup (.short (cp ++ b :: kb') c) k' := by
+  rw [lookup_wrap]
+  by_cases ht : k'.take cp.length = cp
+  · obtain ⟨d, rfl⟩ := take_eq_iff.1 ht
+    rw [if_pos ht, List.drop_left, lookup_short_append_both]
+    simp only [List.append_cancel_left_eq]
+    cases d with
+    | nil => simp [lookup]
+    | cons y d' =>
+      rw [lookup_full_cons]
+      by_cases hya : y = a
+      · subst hya
+        rw [setChild_same, insertNil_value_lookup]
+        simp only [List.cons.injEq, true_and]
+        split
+        · rfl
+        · rw [lookup_short_none]
+          rintro ⟨r, hr⟩
+          simp at hr
+          exact hab hr.1
+      · rw [setChild_other _ _ hya]
+        have hne : ¬ (y :: d' = a :: ka') := by simp [hya]
+        rw [if_neg hne]
+        by_cases hyb : y = b
+        · subst hyb
+          rw [setChild_same, lookup_insertNil, lookup_short]
+          simp
+        · rw [setChild_other _ _ hyb, emptyCs_apply, lookup_nil, lookup_short_none]
+          rintro ⟨r, hr⟩
+          simp at hr
+          exact hyb hr.1
+  · rw [if_neg ht]
+    have h1 : ¬ k' = cp ++ a :: ka' := by
+      intro e; apply ht; rw [e]; simp
+    rw [if_neg h1, lookup_short_none]
+    rintro ⟨r, hr⟩
+    apply ht
+    rw [hr]; simp
+
+theorem ins_lookup (n : Node) : ∀ k v, Pos n k → ∀ k', lookup (ins n k v) k' = if k' = k then some v else lookup n k' := by
+  induction n with
+  | nil =>
+    intro k v _ k'
+    cases k with
+    | nil => simp [ins, lookup]
+    | cons x r => simp only [ins, leaf_lookup, lookup_nil]
+  | value w =>
+    intro k v hp k'
+    rcases hp with ⟨_, h | h⟩ | ⟨rfl, _⟩
+    · cases h
+    · exact absurd h (not_wf_value w)
+    · simp only [ins, lookup_value]
+      split <;> rfl
+  | short nk c ih =>
+    intro k v hp k'
+    rcases hp with ⟨hk, h | hw⟩ | ⟨_, h | ⟨w, h⟩⟩
+    · cases h
+    · cases k with
+      | nil => exact absurd hk (by simp [Term])
+      | cons x r =>
+        obtain ⟨cp, ka, kb, e1, e2, e3, e4⟩ := prefixLen_decomp (x :: r) nk
+        simp only [ins]
+        by_cases hm : prefixLen (x :: r) nk = nk.length
+        · simp only [hm, if_true]
+          have hkb : kb = [] := by
+            have : cp.length = (cp ++ kb).length := by rw [← e2, ← e3, hm]
+            simp at this; exact this
+          subst hkb
+          simp at e2
+          subst e2
+          rw [e1] at hk
+          have hdrop : List.drop nk.length (x :: r) = ka := by rw [e1]; simp
+          rw [hdrop, e1, lookup_short, lookup_short]
+          by_cases ht : k'.take nk.length = nk
+          · obtain ⟨d, rfl⟩ := take_eq_iff.1 ht
+            simp only [List.take_left, if_true, List.drop_left, List.append_cancel_left_eq]
+            exact ih ka v (pos_short_child hw hk) d
+          · simp only [ht, if_false]
+            rw [if_neg]
+            intro e; apply ht; rw [e]; simp
+        · simp only [hm, if_false]
+          have hkb : kb ≠ [] := by
+            intro e; subst e; simp at e2; subst e2; exact hm e3
+          have hka : ka ≠ [] := by
+            intro e; subst e; simp at e1
+            rw [e1] at hk
+            exact hkb (short_key_not_extends hw hk e2)
+          obtain ⟨b, kb', rfl⟩ := List.exists_cons_of_ne_nil hkb
+          obtain ⟨a, ka', rfl⟩ := List.exists_cons_of_ne_nil hka
+          have hab : a ≠ b := by
+            rcases e4 with h | h | h
+            · cases h
+            · cases h
+            · simpa using h
+          have h1 : nk[prefixLen (x :: r) nk]? = some b := by rw [e3, e2]; simp
+          have h2 : (x :: r)[prefixLen (x :: r) nk]? = some a := by rw [e3, e1]; simp
+          rw [h1, h2]
+          simp only []
+          have h3 : List.drop (prefixLen (x :: r) nk + 1) nk = kb' := by rw [e3, e2]; simp
+          have h4 : List.drop (prefixLen (x :: r) nk + 1) (x :: r) = ka' := by rw [e3, e1]; simp
+          have h5 : List.take (prefixLen (x :: r) nk) (x :: r) = cp := by rw [e3, e1]; simp
+          rw [h3, h4, h5, e3, e1, e2]
+          exact split_lookup cp ka' kb' a b c v hab k'
+    · cases h
+    · cases h
+  | full cs ih =>
+    intro k v hp k'
+    rcases hp with ⟨hk, h | hw⟩ | ⟨_, h | ⟨w, h⟩⟩
+    · cases h
+    · cases k with
+      | nil => exact absurd hk (by simp [Term])
+      | cons x r =>
+        simp only [ins]
+        cases k' with
+        | nil => simp [lookup]
+        | cons y r' =>
+          rw [lookup_full_cons, lookup_full_cons]
+          by_cases hy : y = x
+          · subst hy
+            rw [setChild_same, ih y r v (pos_full_child hw hk) r']
+            simp
+          · rw [setChild_other _ _ hy]
+            simp [hy]
+    · cases h
+    · cases h
+
+
+
+theorem wf_ne_nil {n : Node} (h : WF n) : n ≠ .nil := by
+  intro e; subst e; exact not_wf_nil h
+
+theorem wf_full_setChild {cs : Nib → Node} {x : Nib} {nn : Node} (hw : WF (.full cs))
+    (h1 : x ≠ T → WF nn) (h2 : x = T → ∃ v, v ≠ [] ∧ nn = .value v) : WF (.full (setChild cs x nn)) := by
+  obtain ⟨c1, c2, i, j, hij, hi, hj⟩ := wf_full_inv hw
+  have hnn : nn ≠ .nil := by
+    by_cases hx : x = T
+    · obtain ⟨v, _, rfl⟩ := h2 hx; simp
+    · exact wf_ne_nil (h1 hx)
+  have hset : ∀ i, cs i ≠ .nil → setChild cs x nn i ≠ .nil := by
+    intro i hi
+    by_cases hix : i = x
+    · subst hix; simpa using hnn
+    · rw [setChild_other _ _ hix]; exact hi
+  apply WF.full
+  · intro i hiT hne
+    by_cases hix : i = x
+    · subst hix; rw [setChild_same]; exact h1 hiT
+    · rw [setChild_other _ _ hix] at hne ⊢
+      exact c1 i hiT hne
+  · by_cases hx : x = T
+    · subst hx
+      rw [setChild_same]
+      exact Or.inr (by obtain ⟨v, hv, e⟩ := h2 rfl; exact ⟨v, hv, e⟩)
+    · rw [setChild_other _ _ (Ne.symm hx)]
+      exact c2
+  · exact ⟨i, j, hij, hset i hi, hset j hj⟩
+
+theorem wf_short_suffix {cp q : List Nib} {c : Node} (hw : WF (.short (cp ++ q) c)) (hq : q ≠ []) : WF (.short q c) := by
+  rcases wf_short_inv hw with ⟨hk, v, hv, rfl⟩ | ⟨_, hh, cs, rfl, hwf⟩
+  · exact WF.leaf q v (term_split hk hq).2 hv
+  · exact WF.ext q cs hq (hex_append.1 hh).2 hwf
+
+theorem wf_insertNil_tail {b : Nib} {kb' : List Nib} {c : Node} (hw : WF (.short (b :: kb') c)) :
+    (b ≠ T → WF (insertNil kb' c)) ∧ (b = T → kb' = [] ∧ ∃ w, w ≠ [] ∧ c = .value w) ∧ insertNil kb' c ≠ .nil := by
+  rcases wf_short_inv hw with ⟨hk, w, hv, rfl⟩ | ⟨_, hh, cs, rfl, hwf⟩
+  · rcases term_cons.1 hk with ⟨rfl, rfl⟩ | ⟨hne, hb, ht⟩
+    · exact ⟨fun h => absurd rfl h, fun _ => ⟨rfl, w, hv, rfl⟩, by simp [insertNil]⟩
+    · refine ⟨fun _ => ?_, fun h => absurd h hb, by simp [insertNil, hne]⟩
+      simp only [insertNil, hne, if_false]
+      exact WF.leaf kb' w ht hv
+  · have hb := (hex_cons.1 hh).1
+    refine ⟨fun _ => ?_, fun h => absurd h hb, ?_⟩
+    · unfold insertNil
+      split
+      · exact hwf
+      · next hne => exact WF.ext kb' cs hne (hex_cons.1 hh).2 hwf
+    · unfold insertNil; split <;> simp
+
+theorem wf_insertNil_value {a : Nib} {ka' : List Nib} {v : Bytes} (hk : Term (a :: ka')) (hv : v ≠ []) :
+    (a ≠ T → WF (insertNil ka' (.value v))) ∧ (a = T → insertNil ka' (.value v) = .value v) ∧
+      insertNil ka' (.value v) ≠ .nil := by
+  rcases term_cons.1 hk with ⟨rfl, rfl⟩ | ⟨hne, ha, ht⟩
+  · exact ⟨fun h => absurd rfl h, fun _ => by simp [insertNil], by simp [insertNil]⟩
+  · refine ⟨fun _ => ?_, fun h => absurd h ha, by simp [insertNil, hne]⟩
+    simp only [insertNil, hne, if_false]
+    exact WF.leaf ka' v ht hv
+
+theorem split_wf {cp ka' kb' : List Nib} {a b : Nib} {c : Node} {v : Bytes} (hab : a ≠ b)
+    (hw : WF (.short (cp ++ b :: kb') c)) (hk : Term (cp ++ a :: ka')) (hv : v ≠ []) :
+    WF (if cp.length = 0 then
+          .full (setChild (setChild emptyCs b (insertNil kb' c)) a (insertNil ka' (.value v)))
+        else .short cp (.full (setChild (setChild emptyCs b (insertNil kb' c)) a (insertNil ka' (.value v))))) := by
+  have hs := term_split hk (by simp : a :: ka' ≠ [])
+  obtain ⟨a1, a2, a3⟩ := wf_insertNil_value hs.2 hv
+  obtain ⟨b1, b2, b3⟩ := wf_insertNil_tail (wf_short_suffix hw (by simp : b :: kb' ≠ []))
+  have hbr : WF (.full (setChild (setChild emptyCs b (insertNil kb' c)) a (insertNil ka' (.value v)))) := by
+    apply WF.full
+    · intro i hiT hne
+      by_cases hia : i = a
+      · subst hia; rw [setChild_same]; exact a1 hiT
+      · rw [setChild_other _ _ hia] at hne ⊢
+        by_cases hib : i = b
+        · subst hib; rw [setChild_same]; exact b1 hiT
+        · rw [setChild_other _ _ hib] at hne; simp at hne
+    · by_cases ha : a = T
+      · subst ha
+        rw [setChild_same, a2 rfl]
+        exact Or.inr ⟨v, hv, rfl⟩
+      · rw [setChild_other _ _ (Ne.symm ha)]
+        by_cases hb : b = T
+        · subst hb
+          rw [setChild_same]
+          obtain ⟨e, w, hw', rfl⟩ := b2 rfl
+          subst e
+          exact Or.inr ⟨w, hw', by simp [insertNil]⟩
+        · rw [setChild_other _ _ (Ne.symm hb)]
+          exact Or.inl rfl
+    · refine ⟨a, b, hab, ?_, ?_⟩
+      · rw [setChild_same]; exact a3
+      · rw [setChild_other _ _ (Ne.symm hab), setChild_same]; exact b3
+  split
+  · exact hbr
+  · next hne =>
+    exact WF.ext cp _ (by intro e; subst e; simp at hne) hs.1 hbr
+
+theorem ins_wf (n : Node) : ∀ k v, Term k → (n = .nil ∨ WF n) → v ≠ [] → WF (ins n k v) := by
+  induction n with
+  | nil =>
+    intro k v hk _ hv
+    cases k with
+    | nil => exact absurd hk (by simp [Term])
+    | cons x r => simp only [ins]; exact WF.leaf _ v hk hv
+  | value w =>
+    intro k v _ hn _
+    rcases hn with h | h
+    · cases h
+    · exact absurd h (not_wf_value w)
+  | short nk c ih =>
+    intro k v hk hn hv
+    rcases hn with h | hw
+    · cases h
+    · cases k with
+      | nil => exact absurd hk (by simp [Term])
+      | cons x r =>
+        obtain ⟨cp, ka, kb, e1, e2, e3, e4⟩ := prefixLen_decomp (x :: r) nk
+        simp only [ins]
+        by_cases hm : prefixLen (x :: r) nk = nk.length
+        · simp only [hm, if_true]
+          have hkb : kb = [] := by
+            have : cp.length = (cp ++ kb).length := by rw [← e2, ← e3, hm]
+            simp at this; exact this
+          subst hkb
+          simp at e2
+          subst e2
+          rw [e1] at hk
+          have hdrop : List.drop nk.length (x :: r) = ka := by rw [e1]; simp
+          rw [hdrop]
+          rcases wf_short_inv hw with ⟨hnk, w, _, rfl⟩ | ⟨hne, hh, cs, rfl, hwf⟩
+          · have := term_prefix_eq hnk hk
+            subst this
+            simp only [ins]
+            exact WF.leaf nk v hnk hv
+          · have hka : ka ≠ [] := by
+              intro e; subst e; simp at hk; exact term_not_hex hk hh
+            have hkat := (term_split hk hka).2
+            have := ih ka v hkat (Or.inr hwf) hv
+            obtain ⟨y, r', rfl⟩ := List.exists_cons_of_ne_nil hka
+            simp only [ins] at this ⊢
+            exact WF.ext nk _ hne hh this
+        · simp only [hm, if_false]
+          have hkb : kb ≠ [] := by
+            intro e; subst e; simp at e2; subst e2; exact hm e3
+          have hka : ka ≠ [] := by
+            intro e; subst e; simp at e1
+            rw [e1] at hk
+            exact hkb (short_key_not_extends hw hk e2)
+          obtain ⟨b, kb', rfl⟩ := List.exists_cons_of_ne_nil hkb
+          obtain ⟨a, ka', rfl⟩ := List.exists_cons_of_ne_nil hka
+          have hab : a ≠ b := by
+            rcases e4 with h | h | h
+            · cases h
+            · cases h
+            · simpa using h
+          have h1 : nk[prefixLen (x :: r) nk]? = some b := by rw [e3, e2]; simp
+          have h2 : (x :: r)[prefixLen (x :: r) nk]? = some a := by rw [e3, e1]; simp
+          rw [h1, h2]
+          simp only []
+          have h3 : List.drop (prefixLen (x :: r) nk + 1) nk = kb' := by rw [e3, e2]; simp
+          have h4 : List.drop (prefixLen (x :: r) nk + 1) (x :: r) = ka' := by rw [e3, e1]; simp
+          have h5 : List.take (prefixLen (x :: r) nk) (x :: r) = cp := by rw [e3, e1]; simp
+          rw [h3, h4, h5, e3]
+          rw [e2] at hw
+          rw [e1] at hk
+          exact split_wf hab hw hk hv
+  | full cs ih =>
+    intro k v hk hn hv
+    rcases hn with h | hw
+    · cases h
+    · cases k with
+      | nil => exact absurd hk (by simp [Term])
+      | cons x r =>
+        simp only [ins]
+        apply wf_full_setChild hw
+        · intro hx
+          rcases term_cons.1 hk with ⟨_, e⟩ | ⟨_, _, ht⟩
+          · exact absurd e hx
+          · apply ih x r v ht _ hv
+            by_cases hc : cs x = .nil
+            · exact Or.inl hc
+            · exact Or.inr ((wf_full_inv hw).1 x hx hc)
+        · intro hx
+          rcases term_cons.1 hk with ⟨e, _⟩ | ⟨_, h, _⟩
+          · subst e; exact ⟨v, hv, by simp [ins]⟩
+          · exact absurd hx h
+
+
+
+theorem lookup_short_short (nk ck : List Nib) (cv : Node) (k' : List Nib) :
+    lookup (.short (nk ++ ck) cv) k' = lookup (.short nk (.short ck cv)) k' := by
+  by_cases ht : k'.take nk.length = nk
+  · obtain ⟨d, rfl⟩ := take_eq_iff.1 ht
+    rw [lookup_short_append_both, lookup_short_append]
+  · rw [lookup_short_none, lookup_short_none]
+    · intro h; exact ht (take_eq_iff.2 h)
+    · rintro ⟨r, hr⟩; apply ht; rw [hr]; simp
+
+theorem lookup_mergeShort (nk : List Nib) (ch : Node) (k' : List Nib) :
+    lookup (mergeShort nk ch) k' = lookup (.short nk ch) k' := by
+  cases ch with
+  | short ck cv => simp only [mergeShort]; exact lookup_short_short ..
+  | nil => rfl
+  | value _ => rfl
+  | full _ => rfl
+
+theorem collapse_eq_merge {cs' : Nib → Node} {pos : Nib} (h : onlyChild cs' = some pos) (hp : pos ≠ T) :
+    collapse cs' = mergeShort [pos] (cs' pos) := by
+  simp only [collapse, h, ne_eq, hp, not_false_eq_true, if_true, mergeShort]
+  cases cs' pos <;> rfl
+
+theorem lookup_single (pos : Nib) (cs' : Nib → Node) (h : ∀ j, cs' j ≠ .nil → j = pos) (k' : List Nib) :
+    lookup (.short [pos] (cs' pos)) k' = lookup (.full cs') k' := by
+  cases k' with
+  | nil => simp [lookup]
+  | cons y r =>
+    rw [lookup_full_cons, lookup_short]
+    by_cases hy : y = pos
+    · subst hy; simp
+    · have : cs' y = .nil := by
+        apply Classical.byContradiction
+        intro hne; exact hy (h y hne)
+      simp [hy, this, lookup_nil]
+
+theorem lookup_collapse (cs' : Nib → Node) (k' : List Nib) : lookup (collapse cs') k' = lookup (.full cs') k' := by
+  cases h : onlyChild cs' with
+  | none => simp [collapse, h]
+  | some pos =>
+    have hs := onlyChild_some.1 h
+    by_cases hp : pos = T
+    · simp only [collapse, h, hp, ne_eq, not_true_eq_false, if_false]
+      rw [← hp]
+      exact lookup_single pos cs' hs.2 k'
+    · rw [collapse_eq_merge h hp, lookup_mergeShort]
+      exact lookup_single pos cs' hs.2 k'
+
+theorem prefixLen_covers (nk r : List Nib) : prefixLen (nk ++ r) nk = nk.length := by
+  have := prefixLen_append_left nk r []
+  simp at this
+  rw [this]
+  cases r <;> simp [prefixLen]
+
+theorem del_lookup (n : Node) : ∀ k, Pos n k → ∀ k', lookup (del n k) k' = if k' = k then none else lookup n k' := by
+  induction n with
+  | nil => intro k _ k'; simp [del, lookup]
+  | value w =>
+    intro k hp k'
+    rcases hp with ⟨_, h | h⟩ | ⟨rfl, _⟩
+    · cases h
+    · exact absurd h (not_wf_value w)
+    · simp only [del, lookup_nil, lookup_value]
+      split <;> simp_all
+  | short nk c ih =>
+    intro k hp k'
+    rcases hp with ⟨hk, h | hw⟩ | ⟨_, h | ⟨w, h⟩⟩
+    · cases h
+    · simp only [del]
+      split
+      · next hlt =>
+        -- the node key is not a prefix of k: k is absent
+        by_cases hkk : k' = k
+        · subst hkk
+          rw [if_pos rfl, lookup_short_none]
+          rintro ⟨r, rfl⟩
+          rw [prefixLen_covers] at hlt
+          omega
+        · rw [if_neg hkk]
+      · next hlt =>
+        obtain ⟨cp, ka, kb, e1, e2, e3, _⟩ := prefixLen_decomp k nk
+        have hle := prefixLen_le_right k nk
+        have hkb : kb = [] := by
+          have : cp.length = (cp ++ kb).length := by rw [← e2, ← e3]; omega
+          simp at this; exact this
+        subst hkb
+        simp at e2
+        subst e2
+        split
+        · next hm =>
+          have hka : ka = [] := by
+            have : nk.length = (nk ++ ka).length := by rw [← e1, ← e3]; exact hm
+            simp at this; exact this
+          subst hka
+          simp at e1
+          subst e1
+          rcases wf_short_inv hw with ⟨_, w, _, rfl⟩ | ⟨_, hh, _⟩
+          · rw [leaf_lookup, lookup_nil]; split <;> rfl
+          · exact absurd hh (term_not_hex hk)
+        · next hm =>
+          have hdrop : List.drop nk.length k = ka := by rw [e1]; simp
+          rw [hdrop, lookup_mergeShort, e1, lookup_short, lookup_short]
+          rw [e1] at hk
+          by_cases ht : k'.take nk.length = nk
+          · obtain ⟨d, rfl⟩ := take_eq_iff.1 ht
+            simp only [List.take_left, if_true, List.drop_left, List.append_cancel_left_eq]
+            exact ih ka (pos_short_child hw hk) d
+          · simp only [ht, if_false]
+            rw [if_neg]
+            intro e; apply ht; rw [e]; simp
+    · cases h
+    · cases h
+  | full cs ih =>
+    intro k hp k'
+    rcases hp with ⟨hk, h | hw⟩ | ⟨_, h | ⟨w, h⟩⟩
+    · cases h
+    · cases k with
+      | nil => exact absurd hk (by simp [Term])
+      | cons x r =>
+        simp only [del]
+        rw [lookup_collapse]
+        cases k' with
+        | nil => simp [lookup]
+        | cons y r' =>
+          rw [lookup_full_cons, lookup_full_cons]
+          by_cases hy : y = x
+          · subst hy
+            rw [setChild_same, ih y r (pos_full_child hw hk) r']
+            simp
+          · rw [setChild_other _ _ hy]
+            simp [hy]
+    · cases h
+    · cases h
+
+theorem wf_mergeShort {nk : List Nib} {ch : Node} (h1 : nk ≠ []) (h2 : Hex nk) (hw : WF ch) : WF (mergeShort nk ch) := by
+  cases ch with
+  | nil => exact absurd hw not_wf_nil
+  | value v => exact absurd hw (not_wf_value v)
+  | short ck cv =>
+    simp only [mergeShort]
+    rcases wf_short_inv hw with ⟨hk, v, hv, rfl⟩ | ⟨hne, hh, cs, rfl, hwf⟩
+    · exact WF.leaf _ v (term_append_hex h2 hk) hv
+    · exact WF.ext _ cs (by simp [h1]) (hex_append.2 ⟨h2, hh⟩) hwf
+  | full cs => exact WF.ext nk cs h1 h2 hw
+
+theorem collapse_ne_nil (cs' : Nib → Node) : collapse cs' ≠ .nil := by
+  unfold collapse
+  split
+  · split
+    · split <;> simp
+    · simp
+  · simp
+
+theorem collapse_wf {cs' : Nib → Node} (c1 : ∀ i, i ≠ T → cs' i ≠ .nil → WF (cs' i))
+    (c2 : cs' T = .nil ∨ ∃ v, v ≠ [] ∧ cs' T = .value v) (c3 : ∃ i, cs' i ≠ .nil) : WF (collapse cs') := by
+  cases h : onlyChild cs' with
+  | none =>
+    simp only [collapse, h]
+    obtain ⟨i, hi⟩ := c3
+    obtain ⟨j, hji, hj⟩ := two_of_onlyChild_none h hi
+    exact WF.full cs' c1 c2 ⟨i, j, Ne.symm hji, hi, hj⟩
+  | some pos =>
+    have hs := onlyChild_some.1 h
+    by_cases hp : pos = T
+    · simp only [collapse, h, hp, ne_eq, not_true_eq_false, if_false]
+      rcases c2 with e | ⟨v, hv, e⟩
+      · rw [hp] at hs; exact absurd e hs.1
+      · rw [e]; exact WF.leaf [T] v term_single hv
+    · rw [collapse_eq_merge h hp]
+      apply wf_mergeShort (by simp) _ (c1 pos hp hs.1)
+      exact hex_cons.2 ⟨hp, hex_nil⟩
+
+theorem del_wf (n : Node) : ∀ k, Term k → (n = .nil ∨ WF n) → (del n k = .nil ∨ WF (del n k)) := by
+  induction n with
+  | nil => intro k _ _; left; simp [del]
+  | value w => intro k _ _; left; simp [del]
+  | short nk c ih =>
+    intro k hk hn
+    rcases hn with h | hw
+    · cases h
+    · simp only [del]
+      split
+      · exact Or.inr hw
+      · next hlt =>
+        split
+        · exact Or.inl rfl
+        · next hm =>
+          right
+          obtain ⟨cp, ka, kb, e1, e2, e3, _⟩ := prefixLen_decomp k nk
+          have hle := prefixLen_le_right k nk
+          have hkb : kb = [] := by
+            have : cp.length = (cp ++ kb).length := by rw [← e2, ← e3]; omega
+            simp at this; exact this
+          subst hkb
+          simp at e2
+          subst e2
+          have hdrop : List.drop nk.length k = ka := by rw [e1]; simp
+          rw [hdrop]
+          have hka : ka ≠ [] := by
+            intro e; subst e; simp at e1; subst e1; exact hm e3
+          rw [e1] at hk
+          rcases wf_short_inv hw with ⟨hnk, _⟩ | ⟨hne, hh, cs, rfl, hwf⟩
+          · exact absurd (term_prefix_eq hnk hk) hka
+          · have hkat := (term_split hk hka).2
+            obtain ⟨y, r', rfl⟩ := List.exists_cons_of_ne_nil hka
+            rcases ih _ hkat (Or.inr hwf) with h | h
+            · simp only [del] at h
+              exact absurd h (collapse_ne_nil _)
+            · exact wf_mergeShort hne hh h
+  | full cs ih =>
+    intro k hk hn
+    rcases hn with h | hw
+    · cases h
+    · cases k with
+      | nil => exact absurd hk (by simp [Term])
+      | cons x r =>
+        right
+        simp only [del]
+        obtain ⟨c1, c2, i, j, hij, hi, hj⟩ := wf_full_inv hw
+        have hnn : (x = T → del (cs x) r = .nil) ∧ (x ≠ T → (del (cs x) r = .nil ∨ WF (del (cs x) r))) := by
+          rcases term_cons.1 hk with ⟨rfl, rfl⟩ | ⟨_, hx, ht⟩
+          · refine ⟨fun _ => ?_, fun h => absurd rfl h⟩
+            rcases c2 with e | ⟨v, _, e⟩ <;> simp [e, del]
+          · refine ⟨fun h => absurd h hx, fun _ => ?_⟩
+            apply ih x r ht
+            by_cases hc : cs x = .nil
+            · exact Or.inl hc
+            · exact Or.inr (c1 x hx hc)
+        apply collapse_wf
+        · intro i' hiT hne
+          by_cases hix : i' = x
+          · subst hix
+            rw [setChild_same] at hne ⊢
+            rcases hnn.2 hiT with h | h
+            · exact absurd h hne
+            · exact h
+          · rw [setChild_other _ _ hix] at hne ⊢
+            exact c1 i' hiT hne
+        · by_cases hx : x = T
+          · subst hx
+            rw [setChild_same]
+            exact Or.inl (hnn.1 rfl)
+          · rw [setChild_other _ _ (Ne.symm hx)]
+            exact c2
+        · by_cases hix : i = x
+          · refine ⟨j, ?_⟩
+            have : j ≠ x := by rw [← hix]; exact Ne.symm hij
+            rw [setChild_other _ _ this]; exact hj
+          · refine ⟨i, ?_⟩
+            rw [setChild_other _ _ hix]; exact hi
+
+
 end Aqv.Trie
